@@ -1225,13 +1225,18 @@ impl Scaler for HarfBuzzScaler<'_> {
                         x *= hypot(transform[0], transform[2]);
                         y *= hypot(transform[1], transform[3]);
                     }
-                    Point::new(x, y)
-                        + self
+                    let mut offset = Point::new(x, y);
+                    // the deltas are only valid (and the scratch memory only
+                    // initialized) when they were computed for this glyph
+                    if have_deltas {
+                        offset += self
                             .memory
                             .composite_deltas
                             .get(delta_base + i)
                             .copied()
-                            .unwrap_or_default()
+                            .unwrap_or_default();
+                    }
+                    offset
                 }
                 Anchor::Point { base, component } => {
                     let (base_offset, component_offset) = (base as usize, component as usize);
